@@ -27,6 +27,8 @@ real_t __CPROVER_uninterpreted_flip_double(real_t);
 #define FLIP_FLOAT(x) __CPROVER_uninterpreted_flip_float(x)
 #define FLIP_DOUBLE(x) __CPROVER_uninterpreted_flip_double(x)
 #define MAXBLOCK 4000
+/* the word written for a logical value: 0xffffffff (ECL) or 0x01000000 (IX) for true, 0 for false, as the int the code stores */
+#define LOGI_WORD(x) ((x) ? (self->ix_standard ? (int)16777216u : (int)4294967295u) : (int)0u)
 /* ofstream::write of one int (a length word): head when a block is expected, tail after the block's data */
 #define SINK_WRITE_SCALAR(x, n) do { __CPROVER_assert(verif_thrown || (n) == 4, "length word is 4 bytes"); \
     if (ghost_sink.state == 0) { ghost_sink.head = (x); ghost_sink.state = 1; } \
@@ -75,7 +77,8 @@ init: ghost_b0 = ghost_sink.bytes
 init: ghost_k0 = ghost_sink.blocks
 ensures one_record_structure: \thrown || ghost_sink.state == 0
 ensures every_element_once: \thrown || ghost_sink.elems == \old(ghost_sink.elems) + data->size
-ensures bytes_match_size_arithmetic: \thrown || (ghost_sink.bytes == \old(ghost_sink.bytes) + data->size * 4 + 8 * KB && BLOCKS_FOR(data->size, KB))
+ensures bytes_match_size_arithmetic: \thrown || ghost_sink.bytes == \old(ghost_sink.bytes) + data->size * 4 + 8 * KB
+ensures block_count_is_ceil_n_over_1000: \thrown || BLOCKS_FOR(data->size, KB)
 ensures element_in_order_byte_swapped: \thrown || IMPLIES(ghost_g >= \old(ghost_sink.elems) && ghost_g - \old(ghost_sink.elems) < data->size, ghost_sink.g_seen && ghost_sink.g_val == FLIP_INT(data->data[ghost_g - \old(ghost_sink.elems)]))
 ensures throws_only_if_closed: IMPLIES(\thrown, !OPQ_opaque_is_open(OPQ_ID(self->ofileH)))
 assigns: ghost_sink
@@ -86,6 +89,7 @@ loop 0 invariant counters: ghost_sink.elems == ghost_e0 + DONE && ghost_sink.blo
 loop 0 invariant elements_so_far: IMPLIES(ghost_g >= ghost_e0 && ghost_g - ghost_e0 < DONE, ghost_sink.g_seen && ghost_sink.g_val == FLIP_INT(data->data[ghost_g - ghost_e0]))
 loop 0 assigns: rest, num, dhead, offset, ghost_sink
 loop 0 decreases: rest
+ghost loop 0 post: VERIF_LEMMA(DONE == data->size, "write/all elements consumed when the block loop ends");
 loop 1 invariant staged: m >= 0 && m <= num && flipped_data.size == (unsigned long)num && IMPLIES(ghost_g >= ghost_sink.elems && GJ < (unsigned long)m, flipped_data.data[GJ] == FLIP_INT(data->data[GJ + DONE]))
 loop 1 assigns: m, flipped_data
 loop 1 decreases: num - m
@@ -95,6 +99,8 @@ TYPES = [
   ('int',    'int',    'INTE', 4, 4000, 'FLIP_INT',    'long',    1, 'flipped_data', 'm'),
   ('float',  'float',  'REAL', 4, 4000, 'FLIP_FLOAT',  'realf_t', 2, 'flipped_data_2', 'm_2'),
   ('double', 'double', 'DOUB', 8, 8000, 'FLIP_DOUBLE', 'real_t',  3, 'flipped_data_3', 'm_3'),
+  # LOGI: every element becomes the true / false word of the file flavour (ECL or IX); no byte swap
+  ('bool',   'bool',   'LOGI', 4, 4000, 'LOGI_WORD',   'long',    4, 'logi_data', 'm_4'),
 ]
 for suf, T, en, es, mb, flip, gty, lk, stage, mv in TYPES:
     t = TEMPLATE
@@ -111,4 +117,6 @@ for suf, T, en, es, mb, flip, gty, lk, stage, mv in TYPES:
         t = t.replace(ln, ln.replace('(unsigned long)m,', '(unsigned long)%s,' % mv).replace('m >= 0 && m <= num', '%s >= 0 && %s <= num' % (mv, mv)).replace('assigns: m,', 'assigns: %s,' % mv).replace('num - m', 'num - ' + mv))
     t = t.replace('loop 1 ', 'loop %d ' % lk).replace('flipped_data.', stage + '.').replace(', flipped_data\n', ', ' + stage + '\n')
     t = t.replace(' * 4', ' * %d' % es)
+    if suf == 'bool':
+        t = t.replace('@function write_bool split', '@function write_bool split timeout=90')
     sys.stdout.write('@@@ writer_' + suf + '\n' + t + '\n')
